@@ -308,13 +308,16 @@ def receiver_chain(toks: list[Tok], i: int) -> list[Tok]:
     start = j
     while j >= 0:
         t = toks[j].text
+        if t == "}" and depth == 0:
+            break      # end of the previous block
         if t in (")", "]", "}", ">") and not (t == ">" and depth == 0 and toks[j - 1].text == "-"):
             depth += 1
         elif t in ("(", "[", "{", "<"):
             if depth == 0:
                 break
             depth -= 1
-        elif depth == 0 and t in (";", ",", "=", "{", "}", "=>", "|", "return", "let", "&&", "||", "+", "-", "*", "/"):
+        elif depth == 0 and t in (";", ",", "=", "{", "=>", "|", "return", "let", "&&", "||", "+", "-", "*", "/", "match", "if",
+                                  "while", "in", "else", "for"):
             break
         start = j
         j -= 1
